@@ -136,7 +136,7 @@ func ruleObjStmIndexGuard(c *eng.Ctx) {
 				all := true
 				eng.Instrs(fn, false, func(in2 ssa.Instruction) {
 					call, isCall := in2.(ssa.CallInstruction)
-					if !isCall || call.Common().StaticCallee() != h || pi < 0 || pi >= len(call.Common().Args) {
+					if !isCall || eng.StaticCallee(call) != h || pi < 0 || pi >= len(call.Common().Args) {
 						return
 					}
 					sites++
@@ -611,7 +611,7 @@ func ruleResolvedStyleReadOnly(c *eng.Ctx) {
 				continue // the resolver fills its own cache
 			}
 			n := 0
-			for _, ci := range eng.Calls(fn, true, func(_ string, ci ssa.CallInstruction) bool { return ci.Common().StaticCallee() == res }) {
+			for _, ci := range eng.Calls(fn, true, func(_ string, ci ssa.CallInstruction) bool { return eng.StaticCallee(ci) == res }) {
 				v := ci.Value()
 				if v == nil {
 					continue
@@ -742,7 +742,7 @@ func ruleDRMDefaultDeny(c *eng.Ctx) {
 				if strings.HasPrefix(name, "builtin:") || allowed[name] {
 					continue
 				}
-				if cal := call.Call.StaticCallee(); cal != nil && eng.InModule(cal) {
+				if cal := eng.StaticCallee(call); cal != nil && eng.InModule(cal) {
 					bad = append(bad, name+" at "+c.P.Pos(call.Pos()))
 				} else if strings.HasPrefix(name, "strings.") && name != "strings.ToLower" {
 					// the two exemptions and the content-file test may be inlined: their own constants are accepted
@@ -777,7 +777,7 @@ func ruleBoundsOffsets(c *eng.Ctx) {
 			continue
 		}
 		var call *ssa.Call
-		for _, ci := range eng.Calls(fn, false, func(_ string, ci ssa.CallInstruction) bool { return ci.Common().StaticCallee() == bounds }) {
+		for _, ci := range eng.Calls(fn, false, func(_ string, ci ssa.CallInstruction) bool { return eng.StaticCallee(ci) == bounds }) {
 			if cc, ok := ci.(*ssa.Call); ok {
 				call = cc
 			}
